@@ -72,9 +72,9 @@ def Judged (prog : Prog) (g : Store) (c : Cand) : Prop :=
 
 /-- one scan step: every candidate afterwards was there before, or is the scanned package judged by the
 links of its recorded users in the store of this very moment; a non-forced gc only adds unused ones -/
-theorem scan_step (H : Nat → Nat) (ff : Bool) (prog : Prog) (exO shO : Bool) (g : Store)
+theorem scan_step (H : Nat → Nat) (cfg : Cfg) (prog : Prog) (exO shO : Bool) (g : Store)
     (rm : List (Bid × Nat)) (k : Bid) (sz : Nat) (rest : List (Bid × Nat)) (cands : List Cand) (total : Nat) :
-    ∀ c ∈ (stepPc H ff prog exO shO g (.gScanLock rm k sz rest cands total)).2.cands,
+    ∀ c ∈ (stepPc H cfg prog exO shO g (.gScanLock rm k sz rest cands total)).2.cands,
       c ∈ cands ∨ (c.bid = k ∧ Judged prog g c ∧ ((gcCtx prog).pruneUsed = false → c.unused = true)) := by
   intro c hc
   unfold stepPc at hc
@@ -108,8 +108,8 @@ theorem scan_step (H : Nat → Nat) (ff : Bool) (prog : Prog) (exO shO : Bool) (
 def CandOk (prog : Prog) (pc : Pc) : Prop :=
   (gcCtx prog).pruneUsed = false → ∀ c ∈ pc.cands, c.unused = true
 
-theorem stepPc_candOk (H : Nat → Nat) (ff : Bool) (prog : Prog) (exO shO : Bool) (g : Store) (pc : Pc)
-    (h : CandOk prog pc) : CandOk prog (stepPc H ff prog exO shO g pc).2 := by
+theorem stepPc_candOk (H : Nat → Nat) (cfg : Cfg) (prog : Prog) (exO shO : Bool) (g : Store) (pc : Pc)
+    (h : CandOk prog pc) : CandOk prog (stepPc H cfg prog exO shO g pc).2 := by
   intro hpu c hc
   cases pc
   case gLock =>
@@ -130,7 +130,7 @@ theorem stepPc_candOk (H : Nat → Nat) (ff : Bool) (prog : Prog) (exO shO : Boo
         · exact h hpu c (gcNext_cands_sub _ _ _ _ _ _ c hc)
         · exact h hpu c hc
   case gScanLock rm k sz rest cands total =>
-    rcases scan_step H ff prog exO shO g rm k sz rest cands total c hc with h1 | ⟨_, _, h3⟩
+    rcases scan_step H cfg prog exO shO g rm k sz rest cands total c hc with h1 | ⟨_, _, h3⟩
     · exact h hpu c h1
     · exact h3 hpu
   case gMove rm plan t d te =>
@@ -149,6 +149,6 @@ theorem stepPc_candOk (H : Nat → Nat) (ff : Bool) (prog : Prog) (exO shO : Boo
           simp only [Pc.cands] at hc
           exact h hpu c (List.mem_cons_of_mem _ hc)
   all_goals
-    (rw [Pc.cands_of_notEX (stepPc_notEX H ff prog exO shO g _ rfl (by intro hh; cases hh))] at hc; cases hc)
+    (rw [Pc.cands_of_notEX (stepPc_notEX H cfg prog exO shO g _ rfl (by intro hh; cases hh))] at hc; cases hc)
 
 end Share
